@@ -133,6 +133,9 @@ class Backend:
         return ch
 
     def _refresh(self, now):
+        # the service needs `timer_lag` seconds to notice that a wait or a retry delay is over (rows keep their old
+        # status, with a timestamp in the past, for that long)
+        now = now - (self.d.cfg.get("timer_lag") or 0.0)
         for i in self.order:
             r = self.rows[i]
             t, s = r["Type"], r["Status"]
@@ -157,13 +160,14 @@ class Backend:
     def timers(self):
         """Armed timers as (deadline, id, kind)."""
         out = []
+        lag = self.d.cfg.get("timer_lag") or 0.0
         for i in self.order:
             r = self.rows[i]
             t, s = r["Type"], r["Status"]
             if t == "WAIT" and s == "STARTED":
-                out.append((r["WaitDetails"]["ScheduledEndTimestamp"].timestamp(), i, "wait"))
+                out.append((r["WaitDetails"]["ScheduledEndTimestamp"].timestamp() + lag, i, "wait"))
             elif t == "STEP" and s == "PENDING":
-                out.append((r["StepDetails"]["NextAttemptTimestamp"].timestamp(), i, "retry"))
+                out.append((r["StepDetails"]["NextAttemptTimestamp"].timestamp() + lag, i, "retry"))
             elif t in ("CALLBACK", "CHAINED_INVOKE") and s == "STARTED" and r.get("_timeout_at"):
                 out.append((r["_timeout_at"], i, "timeout"))
         out.sort()
